@@ -79,6 +79,7 @@ ExprVal(it, pos, prog, off) ==
   CASE it.f = "bare" -> L
     [] it.f = "pos" -> it.n + L
     [] it.f = "off" -> L - pos
+    [] it.f = "neg" -> it.n - L                   \* a label inside arithmetic with a negative sign: `n - L`
     [] it.f = "offk" -> it.n - pos                \* %offset of a constant holding an absolute address
     [] it.f = "hipos" -> LET v == it.n + L IN Hi((v \div 65536) % 65536, v % 65536)
     [] it.f = "lopos" -> LET v == it.n + L IN Lo((v \div 65536) % 65536, v % 65536)
